@@ -553,6 +553,12 @@ func VerifyMergeable(st gitstore.Storer, target, feature string) (bool, error) {
 	return policy.NewPolicyVerifier(st).VerifyMergeable(context.Background(), target, feature)
 }
 
+// VerifyMergeableForCommit is the form of the prediction that takes the feature
+// commit instead of a recorded feature reference.
+func VerifyMergeableForCommit(st gitstore.Storer, target, featureCommit string) (bool, error) {
+	return policy.NewPolicyVerifier(st).VerifyMergeableForCommit(context.Background(), target, hashOf(featureCommit))
+}
+
 // WalkRSLGit is WalkRSL for a real git repository, read with one `git log`
 // over raw commit headers (not through gitinterface or rsl).
 func WalkRSLGit(r *gitx.Repo, ref string) ([]*RawEntry, string) {
